@@ -65,6 +65,17 @@ def step (ws : List String) (_impl : String) : Ans :=
               let ty := ((s.headD 0) &&& 0xf0) >>> 4
               s!"ok t={ty} used={s.length - rest.length}") }
       | _, _ => bad
+  | ["pubenc", tl, pl, q] =>
+      match tl.toNat?, pl.toNat?, q.toNat? with
+      | some tl, some pl, some q =>
+          let r := Mqtt.encode (.publish ⟨false, UInt8.ofNat q, false⟩ (List.replicate tl 116) 7 (List.replicate pl 112))
+          { m := match r with
+              | .ok bs => s!"ok n={bs.length}"
+              | .err _ => "err"
+              | .panic _ => "panic",
+            -- the property: never a panic, whatever the size
+            s := if r.isPanic then "err" else "=" }
+      | _, _, _ => bad
   | ["frame", hex] =>
       match bytesOfHex hex with
       | some inner =>
